@@ -108,7 +108,9 @@ pub fn make_case(seed: u64, tier: Tier) -> VrpMapCase {
         let n = p.usize(2, 9);
         let size = n + 1;
         let matrix: Vec<f64> = (0..size * size).map(|i| if i / size == i % size { 0. } else { p.range(1, 500) as f64 }).collect();
-        Some(json!({ "demands": (0..n).map(|_| p.range(1, 3)).collect::<Vec<_>>(), "capacity": p.range(2, 8), "vehicles": p.usize(1, 4), "matrix": matrix,
+        // (one in eight: a fleet which carries nothing - capacity zero, jobs without demand)
+        let carries = !p.chance(0.125);
+        Some(json!({ "demands": (0..n).map(|_| if carries { p.range(1, 3) } else { 0 }).collect::<Vec<_>>(), "capacity": if carries { p.range(2, 8) } else { 0 }, "vehicles": p.usize(1, 4), "matrix": matrix,
             "transport_feature": p.chance(0.5) }))
     } else {
         None
